@@ -4,7 +4,7 @@ from .lib import *
 RULE = ("generated well-formed heads (versions 1.0/1.1, statuses 101..999, absent/empty/long/obs-text reason phrases, 0..128 fields "
         "and 129..140 fields for the limit, optional whitespace around values, empty values, obs-text, repeated names) followed by "
         "arbitrary further bytes; through Flow<RecvResponse>::try_response of a flow that reached RecvResponse by GET / HEAD / POST with body / "
-        "POST+Expect continued / POST+Expect given up (nothing or a partial 100 seen); interim statuses 101,102,103,199 on each of these. Prefixes: every prefix length for heads up to 700 bytes, "
+        "POST+Expect continued / POST+Expect given up (nothing or a partial 100 seen); interim statuses 101,102,103,199 on each of these; a tenth of the heads through the single-call API (Call::try_response on growing prefixes). Prefixes: every prefix length for heads up to 700 bytes, "
         "otherwise every prefix within 3 bytes of a line end plus 60 random ones; each prefix is offered to a flow that has seen only "
         "shorter prefixes (the caller re-presents unconsumed bytes). 3xx heads with Location get every prefix after the Location line "
         "(known finding class partial-redirect). non-trivial = at least one strict prefix and the complete head were offered and the "
@@ -101,11 +101,54 @@ def gen_one(rng, nfields=None, force_redirect=False, kind=None, status=None):
                                  "line_ends": h["line_ends"], "known_from": known_from, "loc_end": loc_end}}
 
 
+def gen_call(rng):
+    """Every prefix of a head offered to ONE single-call API object (Call::try_response): a strict prefix consumes nothing, so the
+    windows are simply the growing prefixes; then the complete head followed by further bytes."""
+    nfields = rng.choice([0, 0, 1, 2, 3, 5])
+    h = gen_response_head(rng, nfields, status=rng.choice([200, 204, 404, 500, 101, 199]), extra_fields=[(b"Content-Length", b"3")] if rng.random() < 0.4 else [])
+    head = h["bytes"]
+    n = len(head)
+    cuts = list(range(0, n)) if n <= 250 else sorted(set([0, 1, 7, 8, 9, 12, 13, n - 3, n - 2, n - 1] + [rng.randrange(0, n) for _ in range(40)]))
+    ops = call_recv_prelude(rng.choice(["GET", "POST", "DELETE"]))
+    first = len(ops)
+    ops += ["raw_try_response %s" % hx(head[:c]) for c in cuts]
+    ops += ["q_is_finished", "raw_try_response %s" % hx(head + rng.choice(REST)), "q_is_finished"]
+    _stats["prelude"]["call-api"] = _stats["prelude"].get("call-api", 0) + 1
+    _stats["prefixes"] += len(cuts)
+    return {"ops": ops, "meta": {"head": n, "version": h["version"], "status": h["status"], "nfields": len(h["fields"]), "api": "call", "first": first,
+                                 "ncuts": len(cuts), "expected": [[k.hex(), v.hex()] for k, v in h["expected"]], "line_ends": h["line_ends"],
+                                 "known_from": None, "loc_end": None}}
+
+
+def oracle_call(script, obs):
+    meta = script["meta"]
+    if any(o == "panic" for o in obs):
+        return ["panic (single-call API)"]
+    first, k = meta["first"], meta["ncuts"]
+    for j in range(first, first + k):
+        if obs[j] != "none #0":
+            return ["single-call API: strict prefix %d of a %d-byte head gave %s" % (len(unhex(script["ops"][j].split(" ")[1])), meta["head"], obs[j][:60])]
+    if obs[first + k] != "false":
+        return ["single-call API: Call::is_finished true before the head is complete"]
+    o = obs[first + k + 1]
+    if not o.startswith("some "):
+        return ["single-call API: complete head not returned: %s" % o[:60]]
+    used, ver, status, hs = parse_response_obs(o)
+    expected = [(bytes.fromhex(a), bytes.fromhex(b)) for a, b in meta["expected"]]
+    if used != meta["head"] or ver != meta["version"] or status != meta["status"] or hs != expected:
+        return ["single-call API: head returned with consumed=%d version=%s status=%s, %d fields; expected %d, %s, %s, %d fields" % (
+            used, ver, status, len(hs), meta["head"], meta["version"], meta["status"], len(expected))]
+    if obs[first + k + 2] != "true":
+        return ["single-call API: Call::is_finished false after the head"]
+    return []
+
+
 def generate(rng, tier, mult):
     count = (300 if tier == "quick" else 5000) * mult
     out = [gen_one(rng) for _ in range(count)]
     out += [gen_one(rng, nfields=rng.choice([0, 1, 2]), force_redirect=True) for _ in range(count // 6)]
     # interim statuses other than 100 on every way of reaching RecvResponse (a pending Expect handshake must only swallow a 100)
+    out += [gen_call(rng) for _ in range(count // 10)]
     for kind in ("get", "post", "expect-continued", "expect-giveup", "expect-partial"):
         for st in (101, 102, 103, 199):
             out.append(gen_one(rng, nfields=rng.choice([0, 1, 2]), kind=kind, status=st))
@@ -137,6 +180,8 @@ def known_class(script, obs):
 
 
 def oracle(script, obs):
+    if script["meta"].get("api") == "call":
+        return oracle_call(script, obs)
     meta = script["meta"]
     n = meta["head"]
     expected = [(bytes.fromhex(k), bytes.fromhex(v)) for k, v in meta["expected"]]
@@ -189,7 +234,7 @@ def oracle(script, obs):
 
 
 def nontrivial(script, obs):
-    return any(op == "try_response" and (o.startswith("some") or o.startswith("err")) for op, o in zip(script["ops"], obs))
+    return any((op == "try_response" or op.startswith("raw_try_response")) and (o.startswith("some") or o.startswith("err")) for op, o in zip(script["ops"], obs))
 
 
 def known_still_fails(cls, impl):
